@@ -69,6 +69,13 @@ def classify_site(call: ast.Call, fn: ast.FunctionDef) -> tuple[bool, str]:
             return True, "accumulated text (checked by L2)"
         return False, f"start/end are not (line, column) pairs: {norm_stmt(vals['start'])}, {norm_stmt(vals['end'])}"
     (sl, sc), (el, ec) = sp, ep
+    # columns are character indices into the line; the indentation *measure* (tab-expanded, reset by form feeds) is not one
+    measures = {n.targets[0].id for n in ast.walk(fn) if isinstance(n, ast.Assign) and isinstance(n.targets[0], ast.Name)
+                and any(isinstance(x, ast.Name) and x.id == "tabsize" for x in ast.walk(n.value))}
+    used = {x.id for e0 in (vals["start"], vals["end"]) for x in ast.walk(_resolve(e0, defs)) if isinstance(x, ast.Name)}
+    if measures & used:
+        return False, (f"a coordinate is the indentation measure `{sorted(measures & used)[0]}` (tabs expanded, form feed resets it), not a "
+                       f"character index: on a tab-indented line the token lies outside its line")
     # `state.max` is `len(state.line)` (set together with the line in move_next_line; checked by T1): one spelling
     sc, ec = sc.replace("state.max", "len(state.line)"), ec.replace("state.max", "len(state.line)")
     s = norm_stmt(s_expr)
@@ -148,6 +155,33 @@ def rule_l1(chk: Check, ix: Index):
     chk.require(not bad, "L1-text-is-span", "TokenizerState:max-is-line-length", repo.TOKENIZE,
                 f"`max` must equal `len(line)` whenever a line is current (it bounds every scan and closes spans); broken by {bad[:2]}")
     chk.floor("L1-text-is-span", 12)
+
+
+def rule_l5(chk: Check, ix: Index, rule_id: str = "L5-line-model"):
+    """Only "\\n" (after the universal-newline translation done once at the entry points) ends a line.  `str.splitlines` also
+    breaks at form feed, vertical tab, FS/GS/RS, NEL and the Unicode line/paragraph separators — ordinary characters inside a
+    Python line — so it must not be used on source text anywhere in the runtime (expected count: zero; the matcher is tried on a
+    built-in positive example on every run)."""
+    def hits(tree):
+        return [n for n in ast.walk(tree) if isinstance(n, ast.Call) and isinstance(n.func, ast.Attribute) and n.func.attr == "splitlines"]
+    if len(hits(ast.parse("for l in source.splitlines(keepends=True): pass"))) != 1:
+        raise AnalysisError("L5: the splitlines matcher does not match its own example")
+    n_funcs = 0
+    for q, f in sorted(ix.funcs.items()):
+        if f.rel not in (repo.TOKENIZE, repo.TOKENIZER, repo.SUBHEADER):
+            continue
+        n_funcs += 1
+        for h in hits(f.node):
+            if any(h is x for sub in ast.walk(f.node) if isinstance(sub, (ast.FunctionDef, ast.AsyncFunctionDef)) and sub is not f.node
+                   for x in ast.walk(sub)):
+                continue
+            chk.count(rule_id)
+            chk.fail(rule_id, f"{f.rel}:{q}:splitlines", f"{f.rel}:{h.lineno}",
+                     f"`{norm_stmt(h)[:60]}` splits source text with str.splitlines: a form feed (page break), \\x0b, \\x1c-\\x1e, \\x85 or "
+                     f"U+2028/2029 inside a line then starts a new 'line' — tokens no longer tile the source, later line numbers shift, "
+                     f"text after a page break is dropped")
+    chk.count(rule_id)
+    chk.ok(rule_id, "runtime-modules:scanned", repo.TOKENIZE, f"{n_funcs} functions scanned")
 
 
 def rule_l2(chk: Check, ix: Index):
@@ -391,6 +425,7 @@ def run(chk: Check):
     rule_l2(chk, ix)
     rule_l3(chk, ix)
     rule_l4(chk, ix)
+    rule_l5(chk, ix)
     from .c03 import rule_t1
     rule_t1(chk, ix)
     # which lines a string token spans is decided by the continuation tests (C09 K6)
